@@ -317,6 +317,7 @@ FILTER_SPECS = [
         {"minimum_difference_connection_list": None, "minimum_difference_solution": 1},
         {"minimum_difference_connection_list": 1, "minimum_difference_solution": None},
         {"minimum_difference_connection_list": None, "minimum_difference_solution": None}]))},
+    lambda d: {"name": "remove_duplicates", "args": [], "kwargs": {"minimum_difference_connection_list": None, "minimum_difference_solution": d(st.sampled_from([None, 0, 1, 2]))}},
     lambda d: {"name": "remove_duplicates_fast", "args": [], "kwargs": {}},
     lambda d: {"name": "strip_generation_meta", "args": [], "kwargs": {}},
     lambda d: {"name": "collect_generation_meta", "args": [], "kwargs": {}},
